@@ -421,6 +421,9 @@ static void gen_search(vh_rng_t *rng)
     if (l >= 6 && !strcasecmp(name + l - 6, ".onion")) {
       sm.zero_questions  = 1;
       sm.expected_status = ARES_ENOTFOUND;
+    } else if (addr && !strcmp(name, "192.0.2.9") && t->family == AF_INET6) {
+      /* an IPv4 literal cannot satisfy a lookup restricted to IPv6: it is looked up like any other text */
+      sim_note("search_v4_literal_for_v6_lookup");
     } else if (addr && (!strcasecmp(name, "localhost") || !strcmp(name, "192.0.2.9"))) {
       sm.zero_questions  = 1;
       sm.expected_status = ARES_SUCCESS;
